@@ -119,6 +119,21 @@ GoldenFails(r) ==
   ELSE (IF r.golden.M = r.M /\ r.golden.rho = r.rho /\ r.golden.f = r.f THEN {} ELSE {"ReferenceParameters"})
        \cup (IF r.golden.values = r.gvalues THEN {} ELSE {"ReferenceValues"})
 
+(* ---- the random stream: an oracle independent of the Python port (KnuthRNG.tla), evaluated when r.rng is set ---- *)
+RNG == INSTANCE KnuthRNG
+With(v, F(_)) == CHOOSE x \in {F(y) : y \in {v}} : TRUE
+StreamFails(r) ==
+  IF ~("rng" \in DOMAIN r /\ r.rng) THEN {} ELSE
+  With(RNG!GKLSStream(r.dim, r.nf, r.M[2], r.radius), LAMBDA st :
+     \* the vertex and the local minimisers are  left + rnd (right - left)  at the stream positions the generator consumes
+     (IF r.M[1] = st.vertex THEN {} ELSE {"StreamVertex"})
+\cup (IF \A i \in 3..10 : r.M[i] = st.locals[i - 2] THEN {} ELSE {"StreamMinimisers"})
+     \* peak_i = min((1 + u_i) rho_i, u_i ((rho_i - ||T - M_i||)^2 - f_global)) with u_i the next numbers of the last batch
+\cup (IF \A i \in 3..10 :
+          \E u \in {st.peakmult[i - 2]} : \E tm \in {QSq(QSub(NormLo(r.M[1], r.M[i]), r.rho[i]))} :
+            QClose(r.peak[i], QMin(QMul(QAdd(Q1, u), r.rho[i]), QMul(u, QAdd(tm, Q1))), Prec)
+      THEN {} ELSE {"StreamPeaks"}))
+
 Kinds(r) == [paraboloid |-> Cardinality({k \in 1..Len(r.pts) : Expected(r, r.pts[k][1])[1] = "paraboloid"}),
              cubic |-> Cardinality({k \in 1..Len(r.pts) : Expected(r, r.pts[k][1])[1] = "cubic"}),
              minimiser |-> Cardinality({k \in 1..Len(r.pts) : Expected(r, r.pts[k][1])[1] = "minimiser"})]
@@ -137,6 +152,7 @@ Next == /\ tpos <= Len(Recs)
              IF WellFormed(r)
              THEN PrintT(<<"GKLS", [dim |-> r.dim, nf |-> r.nf,
                                     failed |-> StructFails(r) \cup EvalFails(r) \cup ContFails(r) \cup GoldenFails(r) \cup BasinFails(r)
+                                               \cup StreamFails(r)
                                                \cup (IF r.raised THEN {"EvaluationRaises"} ELSE {}),
                                     points |-> Len(r.pts), pairs |-> Len(r.pairs), kinds |-> Kinds(r)]>>)
              ELSE PrintT(<<"GKLS", [dim |-> r.dim, nf |-> r.nf, failed |-> {"Malformed"} \cup (IF r.raised THEN {"EvaluationRaises"} ELSE {}),
